@@ -10,6 +10,10 @@ use elements::{locktime, AssetIssuance, LockTime, OutPoint, Transaction, TxInWit
 
 type Req = (Option<u32>, Option<u32>);
 
+/// lock times and sequence numbers as types (model growth: EV.Model.LockTime)
+#[path = "c08_locktime.rs"]
+mod locktime_ext;
+
 // ------------------------------------------------------------------ lock time
 
 /// independent oracle written from the BIP370 text
@@ -733,4 +737,6 @@ pub fn run(rng: &mut R, out: &mut Out) {
         let base = if r % 2 == 0 { vec![] } else { random_adds(rng, &t, 3, true) };
         uid_table(out, rng, &t, &base);
     }
+    // lock times and sequence numbers (last: the random stream of everything above is unchanged)
+    locktime_ext::run(rng, out);
 }
